@@ -258,7 +258,12 @@ class Inductor(Entity):
 
         # Schedule poll after one smoothed interval
         wait_s = self._smoothed_interval if self._smoothed_interval else 0.01
-        poll_time = now + Duration.from_seconds(wait_s)
+        wait = Duration.from_seconds(wait_s)
+        # Guard: a positive sub-nanosecond interval truncates to zero; polling
+        # at the same instant could never satisfy _can_forward, so ensure progress
+        if wait <= Duration.ZERO:
+            wait = Duration(1)
+        poll_time = now + wait
         return [
             Event(
                 time=poll_time,
